@@ -155,9 +155,7 @@ def parenP (b : Bool) (ps : List Piece) : List Piece :=
 
 /-- `protect_statement_start` on pieces -/
 def protectP (ps : List Piece) : List Piece :=
-  match (render ps).toList with
-  | '-' :: _ => .text "(" :: (ps ++ [.text ")"])
-  | _ => ps
+  if protectDecide (render ps).toList then .text "(" :: (ps ++ [.text ")"]) else ps
 
 /-! #### the layouts
 
